@@ -548,6 +548,9 @@ pub fn structured(ctx: &Ctx, entries: &[String], seed: u64, nbases: usize, max_p
                     if op == "challenge_flood" {
                         if entry == "valve::query" {
                             let mut b = base_for(&mut StdRng::seed_from_u64(bseed), ctx, entry);
+                            // (compressed split replies are a Source feature: the case runs with a Source engine whatever the base drew)
+                            b.cfg["engine"] = json!({"t":"source_none"});
+                            b.cfg["check"] = json!(false);
                             if source_entry(entry, &b.cfg) {
                                 static FLOOD: std::sync::OnceLock<Vec<(Vec<u8>, u32, u32)>> = std::sync::OnceLock::new();
                                 let blobs = FLOOD.get_or_init(|| valve::bz2_challenges(1100, 65000));
